@@ -74,7 +74,7 @@ def build_overlay(scratch, attachments):
     desired["Cargo.toml"] = desired["Cargo.toml"] + patch.encode()
     # crate attribute needed by the generic Arc::drop_slow stub
     lib = desired["src/lib.rs"].decode()
-    lib = "#![cfg_attr(kani, feature(allocator_api))]\n#![cfg_attr(kani, allow(unused, dead_code, clippy::all, clippy::pedantic, clippy::nursery, missing_docs))]\n" + lib
+    lib = "#![cfg_attr(kani, feature(allocator_api, slice_internals))]\n#![cfg_attr(kani, allow(unused, dead_code, clippy::all, clippy::pedantic, clippy::nursery, missing_docs))]\n" + lib
     # hash containers -> vector-backed models (hashbrown's SIMD probing is out of CBMC's reach); overlay only
     a1 = "pub type HashMap<K, V> = std::collections::HashMap<K, V, rustc_hash::FxBuildHasher>;"
     a2 = "pub(crate) type HashSet<K> = std::collections::HashSet<K, rustc_hash::FxBuildHasher>;"
